@@ -83,6 +83,10 @@ class Frame:
             ctx.depth -= 1
         rec[3] = value
         rec[4] = False
+        if ctx.sim is not None and options is None:
+            # a *substituted default*: the read returned, yet nothing is stored
+            # for (var, period) although the variable has a formula there
+            rec.append(ctx.is_substituted(var, period))
         if fault is not None and fault["kind"] == "raise_after":
             ctx.fired.append((site, "raise_after"))
             raise InjectedFault(site)
@@ -142,6 +146,22 @@ class Ctx:
         self.begin()
         self.total_enters = 0
         self.total_reads = 0
+
+    sim = None  # set by the check when substituted defaults must be told apart
+
+    def is_substituted(self, var, period) -> bool:
+        sim = self.sim
+        try:
+            variable = sim.tax_benefit_system.get_variable(var)
+            population = sim.populations[variable.entity.key]
+            holder = population._holders.get(var)
+            if holder is None or holder._do_not_store:
+                return False
+            if holder.get_array(period) is not None:
+                return False
+            return variable.get_formula(period) is not None
+        except Exception:  # noqa: BLE001
+            return False
 
     def begin(self, plan=None):
         self.site = 0
